@@ -41,7 +41,7 @@ MonPost ==
         req == Ev.req
     IN
     /\ Check("C19", "DocumentedStatus", Ev.status \in DocumentedStatus)
-    /\ Check("C10", "RateLimit", RateOK)
+    /\ Check("C10", "RateLimit", Ev.kind = "fuzz" \/ RateOK)
     /\ Check("C10", "LimitedNotProcessed", IsLimited => Ev.unchanged /\ Ev.body.cls = "empty")
     /\ (~IsLimited =>
          /\ Check("C10", "Malformed400", Ev.kind \in MalformedKinds => Ev.status = 400 /\ Ev.unchanged)
